@@ -169,8 +169,13 @@ Section Deps.
                                                end) (c_binds c)) in
               let r := deps_callable f (c_callee c) (path ++ [c_id c]) binds
                          (ctl ++ cdis ++ (if c_preflight c then [] else pfl)) in
+              (* a call that carries a disabling condition may turn out
+                 disabled, and then its results (null) are known without the
+                 size of the collection: only for a call without one is the
+                 collection a lower bound on what its consumers wait for *)
+              let sdeps_c := match c_disabled c with Some _ => [] | None => sdeps end in
               let wrap (x : rexp) : rexp :=
-                RWith (dedup (cdis ++ sdeps)) (match c_mapped c with Some _ => REach x | None => x end) in
+                RWith (dedup (cdis ++ sdeps_c)) (match c_mapped c with Some _ => REach x | None => x end) in
               (calls ++ [(c_id c, map (fun od : bytes * rexp => (fst od, wrap (snd od))) (fst r))],
                entries ++ snd r) in
             let (calls, entries) := fold_left step (p_calls p) ([], []) in
